@@ -12,6 +12,7 @@ for d in selftest/mutants/*/ seeded/*/; do
   name=$(basename $d)
   case "$name" in *"$1"*) ;; *) continue;; esac
   [ -f "$d/expect.txt" ] || continue
+  [ -f "$d/superseded.txt" ] && { echo "SELFTEST $name: skipped ($(cut -c1-120 $d/superseded.txt))"; continue; }
   s=$(mktemp -d /tmp/selftest.XXXX)
   rsync -a --exclude .git /repo/ $s/
   if ! (cd $s && patch -p1 -s < /verif/$d/patch.diff); then echo "SELFTEST $name: PATCH DOES NOT APPLY"; fail=1; rm -rf $s; continue; fi
